@@ -50,7 +50,7 @@ func init() {
 		ID:          "C03",
 		Run:         RunC03,
 		Replay:      func(c *Ctx, entry, input string) { CheckC03(c, entry, input) },
-		Rule:        "cases = (entry point, byte string): exhaustive strings over the 24-symbol alphabet through all 11 entry points (plus one more symbol for lexer/splitter), literal/escape/truncation matrix, number forms, adversarial nesting families (depth<=512, input<=16KiB), late multi-line error ranges, every reserved / pseudo keyword after an erroneous prefix and in front of each kind of lexically malformed token, token mutants / hostile splices / random bytes over all 256 byte values; distinct_nontrivial = enumerated strings (distinct by construction) + distinct (entry,input) pairs of the random part",
+		Rule:        "cases = (entry point, byte string): exhaustive strings over the 24-symbol alphabet through all 11 entry points (plus one more symbol for lexer/splitter), literal/escape/truncation matrix, number forms, adversarial nesting families (depth<=512, input<=16KiB), late multi-line error ranges, every reserved / pseudo keyword after an erroneous prefix and in front of each kind of lexically malformed token, token mutants / hostile splices / random bytes over all 256 byte values, sentences of grammar G; distinct_nontrivial = enumerated strings (distinct by construction) + distinct (entry,input) pairs of the random part",
 		Assumptions: []string{"bounded time is decided on a logical clock: token fetches <= 10*(bytes+16)^2 (hook H1); loops that fetch no token are left to the wall-clock watchdog", "inputs are bounded to 16 KiB and nesting depth 512"},
 		Floors: func(m *Merged) []string {
 			var f []string
@@ -64,7 +64,7 @@ func init() {
 		ID:          "C13",
 		Run:         RunC13,
 		Replay:      func(c *Ctx, entry, input string) { CheckC13(c, input) },
-		Rule:        "cases = byte strings: exhaustive over the 24-symbol alphabet up to length 5 (quick) / 6 (thorough), literal matrix, number forms, keyword casings, comment forms, every byte and every code point between two tokens, all \\u escapes, rendered sentences of grammar G, corpus files, random hostile bytes; distinct_nontrivial = accepted enumerated strings (distinct by construction) + distinct accepted strings of the other workloads",
+		Rule:        "cases = byte strings: exhaustive over the 24-symbol alphabet up to length 5 (quick) / 6 (thorough), literal matrix, number forms, keyword casings, comment forms, every byte and every code point between two tokens and as the first thing in the input, backslash runs x quote runs in every literal form, all \\u escapes, rendered sentences of grammar G, corpus files, random hostile bytes; distinct_nontrivial = accepted enumerated strings (distinct by construction) + distinct accepted strings of the other workloads",
 		Assumptions: []string{"whitespace means unicode.IsSpace (the property only says 'whitespace')"},
 		Floors: func(m *Merged) []string {
 			if m.Counters["accepted"] == 0 || m.Counters["comments"] == 0 {
@@ -90,7 +90,7 @@ func init() {
 		ID:          "C15",
 		Run:         RunC15,
 		Replay:      func(c *Ctx, entry, input string) { CheckC15(c, input) },
-		Rule:        "cases = strings s through QuoteSQLString/QuoteSQLBytes/QuoteSQLIdent: exhaustive over all 1- and 2-byte strings and all Unicode code points, reserved words, random longer strings (valid and invalid UTF-8, quotes, backslashes, controls); distinct_nontrivial = exhaustive members (distinct by construction) + distinct random strings",
+		Rule:        "cases = strings s through QuoteSQLString/QuoteSQLBytes/QuoteSQLIdent: exhaustive over all 1- and 2-byte strings and all Unicode code points, reserved words, x+code point names, long values (plain runs of 35 lengths up to 70 001 bytes with one special unit at the start, after the run or at the end), random longer strings (valid and invalid UTF-8, quotes, backslashes, controls); distinct_nontrivial = exhaustive members (distinct by construction) + distinct random strings",
 		Assumptions: []string{"'lexes as' is decided by memefish.Lexer and, where it has an opinion, by the reference lexer"},
 		Floors: func(m *Merged) []string {
 			if m.Counters["ident_quoted"] == 0 || m.Counters["ident_unquoted"] == 0 {
@@ -103,7 +103,7 @@ func init() {
 		ID:          "C20",
 		Run:         RunC20,
 		Replay:      func(c *Ctx, entry, input string) { ReplayC20(c, entry, input) },
-		Rule:        "cases = (text, pos, end): exhaustive texts of up to 6 (quick) / 8 (thorough) symbols over {a, LF, CR, é} x all pairs 0<=pos<=end<=len, random multi-line texts x sampled pairs, many-line texts, ranges across line-number digit boundaries, plus every *Error produced by token mutants / hostile bytes through all entry points, and error inputs + Position.String() under 19 hostile file paths (%, :, newline, quotes, empty, long); distinct_nontrivial = enumerated texts + distinct random texts + distinct (entry, first message) classes",
+		Rule:        "cases = (text, pos, end): exhaustive texts of up to 6 (quick) / 8 (thorough) symbols over {a, LF, CR, é} x all pairs 0<=pos<=end<=len, random multi-line texts x sampled pairs, many-line texts, ranges across line-number digit boundaries, plus every *Error produced by token mutants / hostile bytes through all entry points, every pair also on one File object shared by all pairs of the text (forwards, backwards, jumping) which must agree with a fresh File per call; error inputs + Position.String() under 19 hostile file paths (%, :, newline, quotes, empty, long); distinct_nontrivial = enumerated texts + distinct random texts + distinct (entry, first message) classes",
 		Assumptions: []string{"numbered excerpt lines are recognised as '<spaces><digits>|<text>'; only the line number and that the text ends with the buffer line are checked, not the layout"},
 		Floors: func(m *Merged) []string {
 			if m.Counters["errors_checked"] == 0 {
